@@ -35,6 +35,28 @@ fn real_main(args: Vec<String>) -> i32 {
             let Some(prop) = args.get(2).and_then(|id| bv::props::find(id)) else { usage() };
             driver::replay(prop.as_ref(), &args[3])
         }
+        "bc" => {
+            // bc <file.js>: compile + run, verify every block, print disassembly of blocks with findings
+            let src = std::fs::read_to_string(&args[2]).expect("read");
+            let all_off = std::env::var_os("BV_ALL_OFF").is_some();
+            let cfg = bv::run::RunCfg { force_escape: all_off || std::env::var_os("BV_FORCE_ESCAPE").is_some(), no_const_cache: all_off, no_hoist: all_off, no_fusion: all_off, ..bv::run::RunCfg::default() };
+            let (_t, dumps) = bv::run::run_with_dump(&src, &cfg);
+            for d in &dumps {
+                let rep = bv::verify_bc::verify(d);
+                println!("== block {} '{}' origin={} parent={:?} flags={:#b} fscope={} : {} violations, {} leftovers, unmodelled={:?}", d.debug_id, d.name, d.origin, d.parent, d.flags, d.has_function_scope, rep.violations.len(), rep.handler_leftovers.len(), rep.unmodelled);
+                for v in rep.violations.iter().chain(rep.handler_leftovers.iter()) {
+                    println!("   {} @{}: {}", v.kind, v.pc, v.detail);
+                }
+                if !rep.violations.is_empty() || args.get(3).is_some() {
+                    println!("{}", bv::verify_bc::disassemble(d));
+                }
+            }
+            0
+        }
+        "tracer" => {
+            bv::props::c20::tracer_main();
+            0
+        }
         "shrink" => {
             let Some(prop) = args.get(2).and_then(|id| bv::props::find(id)) else { usage() };
             driver::shrink_file(prop.as_ref(), &args[3])
